@@ -347,6 +347,8 @@ func checkC02Format(c *BuildCase, f string, d *Decoded, table map[string]map[str
 	}
 	// ---- simple fields ----
 	cmp := func(clause, got, want string) {
+		// a value may end in the line break a YAML block scalar leaves behind: that is layout, not content
+		got, want = strings.TrimSpace(got), strings.TrimSpace(want)
 		if got != want {
 			vs.add("C02."+clause, f, "%s is %q, configured %q", clause, got, want)
 		}
